@@ -678,6 +678,17 @@ func ownValues(tier string, rnd *rand.Rand) []starlark.Value {
 		vs = append(vs, set)
 		vs = append(vs, &hObj{mod: txt, name: txt, args: starlark.Tuple{s, b}}, &hObj{mod: "m", name: "n", args: starlark.Tuple{starlark.String("m"), starlark.Bytes("n"), starlark.String("n")}})
 	}
+	// values that compare equal as Go map keys yet are different values, side by side
+	{
+		pz, nz := starlark.Float(0), starlark.Float(math.Copysign(0, -1))
+		vs = append(vs, starlark.Tuple{pz, nz}, starlark.Tuple{nz, pz}, starlark.Tuple{nz, nz, pz, pz}, starlark.NewList([]starlark.Value{pz, nz, starlark.MakeInt(0)}),
+			starlark.Tuple{starlark.MakeInt(0), nz, pz}, starlark.Tuple{starlark.Tuple{pz}, starlark.Tuple{nz}},
+			starlark.Tuple{starlark.Float(1), starlark.MakeInt(1), starlark.Float(1)}, starlark.Tuple{starlark.MakeInt(1), starlark.Float(1)})
+		d := starlark.NewDict(2)
+		d.SetKey(starlark.String("p"), pz)
+		d.SetKey(starlark.String("n"), nz)
+		vs = append(vs, d)
+	}
 	// tuples that are slices of one another (they share their storage)
 	{
 		whole := starlark.Tuple{starlark.String("a"), starlark.String("b"), starlark.String("c"), starlark.String("d")}
